@@ -223,6 +223,20 @@ func init() {
 		}
 		emit("audio %d %d bad=%d", len(xs)/2, h, bad)
 	})
+	// gb.audiobits I: digest of the exact float32 bit patterns delivered so far (whole buffers): the model has no floats, so
+	// this line is compared between runs of the implementation only (bit-identical samples are part of determinism)
+	register("gb.audiobits", func(a []string) {
+		g := gbs[ai(a, 1)]
+		if g.pa == nil {
+			emit("audiobits none")
+			return
+		}
+		h := uint64(7)
+		for _, x := range g.pa.Quiesce() {
+			h = ((h * 1000003) ^ uint64(math.Float32bits(x))) & 0xFFFFFFFFFFFF
+		}
+		emit("audiobits %d", h)
+	})
 	register("gb.set", func(a []string) {
 		gbs[ai(a, 1)].gb.VCPU().VSetRegs(cpu.VRegs{A: uint8(ai(a, 2)), B: uint8(ai(a, 3)), C: uint8(ai(a, 4)), D: uint8(ai(a, 5)),
 			E: uint8(ai(a, 6)), F: uint8(ai(a, 7)), H: uint8(ai(a, 8)), L: uint8(ai(a, 9)), SP: uint16(ai(a, 10)), PC: uint16(ai(a, 11))})
